@@ -61,6 +61,21 @@ type specCtx struct {
 	results []Val
 	inOld   bool
 	trig    *[]string // candidate quantifier triggers collected while evaluating a quantifier body
+	assumed bool      // the formula is being assumed, not proved: no well-definedness obligations are generated
+	guard   string    // condition under which the sub-expression being evaluated matters (short-circuit operators)
+}
+
+func (c *specCtx) under(cond string) *specCtx {
+	n := *c
+	n.guard = and(c.guard, cond)
+	return &n
+}
+
+func (c *specCtx) oblPath() string {
+	if c.guard == "" {
+		return c.st.path
+	}
+	return and(c.st.path, c.guard)
 }
 
 func (c *specCtx) addTrigger(t string) {
@@ -289,7 +304,7 @@ func (fr *Frame) evalSpec(e SExpr, ctx *specCtx) SV {
 		return fr.evalBinary(x, ctx)
 	case *SCond:
 		c := fr.evalBool(x.C, ctx)
-		a, b := fr.evalSpec(x.A, ctx), fr.evalSpec(x.B, ctx)
+		a, b := fr.evalSpec(x.A, ctx.under(c)), fr.evalSpec(x.B, ctx.under(not(c)))
 		if isIntLike(a) && isIntLike(b) {
 			return SV{Term: ite(c, g.asMath(a), g.asMath(b)), K: svMath}
 		}
@@ -810,11 +825,14 @@ func (fr *Frame) evalBinary(x *SBinary, ctx *specCtx) SV {
 	g := fr.g
 	switch x.Op {
 	case "&&":
-		return SV{Term: and(fr.evalBool(x.X, ctx), fr.evalBool(x.Y, ctx)), K: svBool}
+		l := fr.evalBool(x.X, ctx)
+		return SV{Term: and(l, fr.evalBool(x.Y, ctx.under(l))), K: svBool}
 	case "||":
-		return SV{Term: or(fr.evalBool(x.X, ctx), fr.evalBool(x.Y, ctx)), K: svBool}
+		l := fr.evalBool(x.X, ctx)
+		return SV{Term: or(l, fr.evalBool(x.Y, ctx.under(not(l)))), K: svBool}
 	case "==>":
-		return SV{Term: implies(fr.evalBool(x.X, ctx), fr.evalBool(x.Y, ctx)), K: svBool}
+		l := fr.evalBool(x.X, ctx)
+		return SV{Term: implies(l, fr.evalBool(x.Y, ctx.under(l))), K: svBool}
 	case "<==>":
 		return SV{Term: "(= " + fr.evalBool(x.X, ctx) + " " + fr.evalBool(x.Y, ctx) + ")", K: svBool}
 	}
@@ -1029,6 +1047,9 @@ func (fr *Frame) evalCall(x *SCall, ctx *specCtx) SV {
 	case "wraps": // wraps(err, target): errors.Is(err, target) by the %w chain
 		g.needWraps = true
 		return SV{Term: "(err_wraps " + arg(0).Term + " " + arg(1).Term + ")", K: svBool}
+	case "preexisting": // preexisting(p): the object p points to existed when the function was entered (or p is nil)
+		a := arg(0)
+		return SV{Term: "(<= " + a.Term + " " + g.entry.heap.get(g, g.topKey()) + ")", K: svBool}
 	case "solid": // solid(v): interface value that is neither nil nor a nil pointer in an interface
 		a := arg(0)
 		if !isIface(a.T) {
@@ -1130,22 +1151,22 @@ func (fr *Frame) evalCall(x *SCall, ctx *specCtx) SV {
 		return r
 	}
 	name := g.declarePure(pf)
-	if g.pureHeap[pf.Pkg+"."+pf.Name] && ctx.st != nil && g.entry != nil {
+	if g.pureHeap[pf.Pkg+"."+pf.Name] && ctx.st != nil && g.entry != nil && !ctx.assumed && ctx.kind != ctxCallPost && ctx.kind != ctxPre {
 		if d := ctx.st.heap.dirtyFor(g.pureKeys[pf.Pkg+"."+pf.Name]); d != "" && d != "false" {
 			// the function is defined over the entry heap: its use here is only meaningful if the heap is unchanged
-			g.oblige("heapframe", pf.Name, ctx.st.path, not(d), "opaque specification function "+pf.Name+" is used where the heap must still equal the entry heap")
+			g.oblige("heapframe", pf.Name, ctx.oblPath(), not(d), "opaque specification function "+pf.Name+" is used where the heap must still equal the entry heap")
 		}
 	}
 	var args []string
 	for i := range x.Args {
 		args = append(args, g.coerce(arg(i), pf.Params[i].T, pf.Pkg))
 	}
-	if g.pureHeap[pf.Pkg+"."+pf.Name] && ctx.st != nil && g.entry != nil && g.noHoist == 0 && g.topFrame != nil {
+	if g.pureHeap[pf.Pkg+"."+pf.Name] && ctx.st != nil && g.entry != nil && g.noHoist == 0 && g.topFrame != nil && !ctx.assumed && ctx.kind != ctxCallPost && ctx.kind != ctxPre {
 		// the function is defined over the entry heap: its pointer arguments must denote objects that existed at entry
 		top0 := g.entry.heap.get(g, g.topKey())
 		for i, p := range pf.Params {
 			if p.T.Kind == "ptr" {
-				g.oblige("heapframe", pf.Name+".arg", ctx.st.path, "(<= "+args[i]+" "+top0+")", "argument "+p.Name+" of the entry-heap specification function "+pf.Name+" must not be a freshly allocated object")
+				g.oblige("heapframe", pf.Name+".arg", ctx.oblPath(), "(<= "+args[i]+" "+top0+")", "argument "+p.Name+" of the entry-heap specification function "+pf.Name+" must not be a freshly allocated object")
 			}
 		}
 	}
